@@ -95,3 +95,30 @@ def _is_local(fn, name):
     for n in own_nodes(fn):
         if isinstance(n, ast.Assign) and any(isinstance(tg, ast.Name) and tg.id == name for tg in n.targets): return True
     return False
+
+def r_C16f(root):
+    """C16.f  while a parse tree is turned into objects, conversions and processors come from the metamodel of the parser
+       that produced the tree: the receiver of every `.process(...)` / `.has_obj_processor(...)` in parse_tree_to_objgraph is the
+       function's own `metamodel` (or parser.metamodel), and `_tx_metamodel` is never read through a rule or class object —
+       the base-type rule objects are module-level and shared by all metamodels; their `_tx_class` belongs to whichever
+       metamodel was built last."""
+    M = "textx/model.py"; out = []; inst = 0
+    t = load(root, M); fn = find(t, "parse_tree_to_objgraph")
+    for c in calls(fn):
+        if isinstance(c.func, ast.Attribute) and c.func.attr in ("process", "has_obj_processor", "_init_obj_attrs", "convert"):
+            f = enclosing_func(c); fi = sem.info(f)
+            recv = fi.expand(c.func.value, at=c); rt = ast.unparse(recv)
+            rootn = recv
+            while isinstance(rootn, (ast.Attribute, ast.Subscript, ast.Call)): rootn = rootn.value if not isinstance(rootn, ast.Call) else rootn.func
+            ok = rt in ("metamodel", "parser.metamodel")
+            inst += 1
+            ob("C16", "C16.f", M, qualname(c), "%s.%s(...)" % (rt[:60], c.func.attr), ok)
+            if not ok: out.append(Finding("C16", "C16.f", M, qualname(c), " ".join(ast.unparse(c).split())[:100], "the metamodel used while building objects is %s, not the metamodel of the parser that produced the tree: rule objects of the base types are shared by all metamodels, so the result depends on which metamodel was created last" % rt[:80], witness="two metamodels with different INT processors; a composite match rule 'S: ID \\'=\\' INT;' parsed by the older one"))
+    for n in ast.walk(t):
+        if isinstance(n, ast.Attribute) and n.attr == "_tx_metamodel" and isinstance(n.ctx, ast.Load):
+            rt = ast.unparse(n.value); inst += 1
+            bad = any(k in rt for k in ("_tx_class", ".rule", "__class__", "type(", "cls"))
+            ob("C16", "C16.f", M, qualname(n), "%s._tx_metamodel" % rt[:60], not bad)
+            if bad: out.append(Finding("C16", "C16.f", M, qualname(n), "%s._tx_metamodel" % rt[:80], "the metamodel is reached through a rule/class object; for the shared base-type rules that is the metamodel built last, not the one in use"))
+    if inst < 4: raise AnalysisError("parse_tree_to_objgraph: only %d processor dispatch sites found" % inst)
+    return inst, out
